@@ -321,36 +321,41 @@ def modsThenJoin : List Tok → Option (List Str × Nat × List Tok)
   | _ => none
 
 /-- patternJoinDBTable (group 1 = prefix, then `(?:LATERAL\s+)?` greedy with backtracking, db.table) -/
+def joinDbTail (words : List Str) (n : Nat) (r : List Tok) : Option (List Tok × Nat) :=
+  let plain : Option (List Tok × Nat) :=
+    match r with
+    | a :: .p '.' :: b :: _ => if wordLike a && wordLike b then some ([.rpJ words (resolve a) (resolve b)], n + 3) else none
+    | _ => none
+  match r with
+  | .w l :: .s _ :: a :: .p '.' :: b :: _ =>
+    if lower l == "lateral".toList && wordLike a && wordLike b then some ([.rpJ (words ++ [l]) (resolve a) (resolve b)], n + 5)
+    else plain
+  | _ => plain
+
 def joinDbAt (ts : List Tok) : Option (List Tok × Nat) :=
   match modsThenJoin ts with
   | none => none
-  | some (words, n, r) =>
-    let plain : Option (List Tok × Nat) :=
-      match r with
-      | a :: .p '.' :: b :: _ => if wordLike a && wordLike b then some ([.rpJ words (resolve a) (resolve b)], n + 3) else none
-      | _ => none
-    match r with
-    | .w l :: .s _ :: a :: .p '.' :: b :: _ =>
-      if lower l == "lateral".toList && wordLike a && wordLike b then some ([.rpJ (words ++ [l]) (resolve a) (resolve b)], n + 5)
-      else plain
-    | _ => plain
+  | some (words, n, r) => joinDbTail words n r
 
 /-- patternJoinSimpleTable + callback -/
+def joinSimpleTail (cte : List Key) (db : Str) (ts : List Tok) (words : List Str) (n : Nat) (r : List Tok) :
+    Option (List Tok × Nat) :=
+  let plain : Option (List Tok × Nat) :=
+    match r with
+    | nm :: rest =>
+      if simpleName nm then some (if replaceOK cte nm rest then [.rpJ words db (resolve nm)] else ts.take (n + 1), n + 1) else none
+    | [] => none
+  match r with
+  | .w l :: .s _ :: nm :: rest =>
+    if lower l == "lateral".toList && simpleName nm then
+      some (if replaceOK cte nm rest then [.rpJ (words ++ [l]) db (resolve nm)] else ts.take (n + 3), n + 3)
+    else plain
+  | _ => plain
+
 def joinSimpleAt (cte : List Key) (db : Str) (ts : List Tok) : Option (List Tok × Nat) :=
   match modsThenJoin ts with
   | none => none
-  | some (words, n, r) =>
-    let plain : Option (List Tok × Nat) :=
-      match r with
-      | nm :: rest =>
-        if simpleName nm then some (if replaceOK cte nm rest then [.rpJ words db (resolve nm)] else ts.take (n + 1), n + 1) else none
-      | [] => none
-    match r with
-    | .w l :: .s _ :: nm :: rest =>
-      if lower l == "lateral".toList && simpleName nm then
-        some (if replaceOK cte nm rest then [.rpJ (words ++ [l]) db (resolve nm)] else ts.take (n + 3), n + 3)
-      else plain
-    | _ => plain
+  | some (words, n, r) => joinSimpleTail cte db ts words n r
 
 def unmask : List Tok → List Tok := List.map fun t => match t with | .m s => .w s | t => t
 
